@@ -328,6 +328,25 @@ Proof.
   all: e2_close th Hpc.
 Qed.
 
+(* a store read of the region the thread runs next fails: in every failing case the thread ends with an error and
+   releases exactly what it took itself at that pc (the same abstract moves as the error exits of [resume]: hold ->
+   not hold, table loses the key; [PIkTaken]: the reference is neither held nor released); the SaveMeta case is the
+   pc move [enter_exec] makes when the transaction is found.  Lock table / queue are outside [eff]. *)
+Lemma e2_resume_read_fail_eff : forall s t s', resume_read_fail s t = Some s' ->
+  exists th th', get_thread (threads s) t = Some th /\
+    (forall t', gth s' t' = if Nat.eqb t' t then Some (ug th') else gth s t') /\
+    (TL t (ug th) -> eff s s' t (ug th) (ug th')).
+Proof.
+  intros s t s' H. unfold resume_read_fail in H.
+  destruct (get_thread (threads s) t) as [th|] eqn:Hth; [|discriminate].
+  destruct (negb (Nat.eqb (t_gen th) (gen s))) eqn:Hgen; [discriminate|].
+  exists th.
+  destruct (t_pc th) eqn:Hpc; cbv zeta in H; try discriminate H.
+  all: e2_leaves H Hpc.
+  all: eexists; split; [reflexivity|].
+  all: e2_close th Hpc.
+Qed.
+
 (* cancelling a context changes nothing of what the invariants read *)
 Lemma e2_cancel_frame : forall s t s', cancel s t = Some s' ->
   (forall t', gth s' t' = gth s t') /\ persisted s' = persisted s /\ inflight s' = inflight s /\
